@@ -1,0 +1,31 @@
+//go:build verif
+
+package stream
+
+import (
+	"time"
+
+	"github.com/rulego/streamsql/types"
+)
+
+// Accessor for the verification harness (/verif, property C07). Compiled only with -tags verif.
+
+// VerifBatchFeeder initialises the aggregator of a window-mode stream the way
+// DataProcessor.Process does, without starting any goroutine, and returns a function that
+// pushes one window batch through processWindowBatch (aggregate -> post-aggregation ->
+// DISTINCT -> HAVING -> ORDER BY -> LIMIT -> sinks) on the calling goroutine.
+// Sync sinks registered on the stream have run when the returned function returns.
+func VerifBatchFeeder(s *Stream) func(rows []map[string]any) {
+	dp := NewDataProcessor(s)
+	dp.initializeAggregator()
+	start := time.Unix(1000, 0)
+	end := time.Unix(1001, 0)
+	return func(rows []map[string]any) {
+		slot := types.NewTimeSlot(&start, &end)
+		batch := make([]types.Row, len(rows))
+		for i, r := range rows {
+			batch[i] = types.Row{Data: r, Timestamp: start, Slot: slot}
+		}
+		dp.processWindowBatch(batch)
+	}
+}
